@@ -81,7 +81,9 @@ pub struct CliOut {
     pub stdout_bytes: Vec<u8>,
 }
 
-/// run an anthem binary with `args`, optional stdin, optional environment/cwd
+/// run an anthem binary with `args`, optional stdin, optional environment/cwd; a generous
+/// wall-clock watchdog (AVM_CLI_TIMEOUT_S, default 120 s) kills a child that does not finish and
+/// reports it as an io error (inconclusive for the caller, never a verdict)
 pub fn run_cli(bin: &Path, args: &[&str], stdin: Option<&[u8]>, env: &[(&str, &str)], cwd: Option<&Path>) -> std::io::Result<CliOut> {
     let mut c = Command::new(bin);
     c.args(args).stdin(if stdin.is_some() { Stdio::piped() } else { Stdio::null() }).stdout(Stdio::piped()).stderr(Stdio::piped());
@@ -96,12 +98,40 @@ pub fn run_cli(bin: &Path, args: &[&str], stdin: Option<&[u8]>, env: &[(&str, &s
         let mut si = child.stdin.take().unwrap();
         let _ = si.write_all(data);
     }
-    let out = child.wait_with_output()?;
+    let mut so = child.stdout.take().unwrap();
+    let mut se = child.stderr.take().unwrap();
+    let t1 = std::thread::spawn(move || {
+        let mut b = Vec::new();
+        let _ = std::io::Read::read_to_end(&mut so, &mut b);
+        b
+    });
+    let t2 = std::thread::spawn(move || {
+        let mut b = Vec::new();
+        let _ = std::io::Read::read_to_end(&mut se, &mut b);
+        b
+    });
+    let limit = std::env::var("AVM_CLI_TIMEOUT_S").ok().and_then(|s| s.parse::<u64>().ok()).unwrap_or(120);
+    let started = std::time::Instant::now();
+    let status = loop {
+        match child.try_wait()? {
+            Some(s) => break s,
+            None => {
+                if started.elapsed() > std::time::Duration::from_secs(limit) {
+                    let _ = child.kill();
+                    let _ = child.wait();
+                    return Err(std::io::Error::new(std::io::ErrorKind::TimedOut, "anthem did not finish within the wall-clock watchdog"));
+                }
+                std::thread::sleep(std::time::Duration::from_millis(1));
+            }
+        }
+    };
+    let stdout_bytes = t1.join().unwrap_or_default();
+    let stderr_bytes = t2.join().unwrap_or_default();
     Ok(CliOut {
-        code: out.status.code(),
-        stdout: String::from_utf8_lossy(&out.stdout).to_string(),
-        stderr: String::from_utf8_lossy(&out.stderr).to_string(),
-        stdout_bytes: out.stdout,
+        code: status.code(),
+        stdout: String::from_utf8_lossy(&stdout_bytes).to_string(),
+        stderr: String::from_utf8_lossy(&stderr_bytes).to_string(),
+        stdout_bytes,
     })
 }
 
